@@ -256,7 +256,11 @@ impl Transport for HypPciTransport {
         assert_eq!(offset % align_of::<T>(), 0);
 
         let config_space = self.config_space.ok_or(Error::ConfigSpaceMissing)?;
-        if config_space.size < offset + size_of::<T>() {
+        // `offset` comes from the caller: the end of the access must be computed without overflow.
+        if offset
+            .checked_add(size_of::<T>())
+            .is_none_or(|end| config_space.size < end)
+        {
             Err(Error::ConfigSpaceTooSmall)
         } else {
             Ok(config_space.read(offset))
@@ -276,7 +280,11 @@ impl Transport for HypPciTransport {
         assert_eq!(offset % align_of::<T>(), 0);
 
         let config_space = self.config_space.ok_or(Error::ConfigSpaceMissing)?;
-        if config_space.size < offset + size_of::<T>() {
+        // `offset` comes from the caller: the end of the access must be computed without overflow.
+        if offset
+            .checked_add(size_of::<T>())
+            .is_none_or(|end| config_space.size < end)
+        {
             Err(Error::ConfigSpaceTooSmall)
         } else {
             config_space.write(offset, value);
